@@ -78,7 +78,7 @@ def run(ctx):
         return
     cfgs.sort(key=lambda c: json.dumps(c, sort_keys=True))
     if not ctx.thorough:
-        cfgs = [c for i, c in enumerate(cfgs) if (i + ctx.seed) % 2 == 0]
+        cfgs = [c for c in cfgs if int(vf.stable_hash([c, ctx.seed]), 16) % 2 == 0]      # a seeded half
     fcases, fcfgs = os.path.join(ctx.tmp, "c10.cases"), os.path.join(ctx.tmp, "c10.cfgs")
     vf.write_ndjson(fcases, cases)
     with open(fcfgs, "w") as fh:
